@@ -1,14 +1,22 @@
 """C03 — Hilbert R-tree queries return exactly the intersecting / covered boxes.
 
-Correspondence: real HilbertRtree builds (d = 1, 2, 3; integer-corner boxes with
-duplicates, zero extent, shared edges, NaN rows; every page size; several curve
-orders) and batches of queries on the half-integer grid, against Model/Rtree.v
-evaluated by the Coq kernel on the same rows, the same `_keys` permutation and
-the same queries (coordinates scaled by 2); compared: `_bounds_tree`,
-`total_bounds`, and the sorted results of `intersects` / `covers_overlaps`.
-Independently every result is compared with a brute-force oracle of the
-specification.  The node -> [start, stop) arithmetic of the array-encoded tree
-is compared on its own for every (n, page_size), n <= 200.
+PRIMARY comparison (public API only): `HilbertRtree(bounds, p=, page_size=)`,
+`.intersects(q)`, `.covers_overlaps(q)`, `.total_bounds` and a pickle round trip
+of real builds (d = 1, 2, 3; integer-corner boxes with duplicates, zero extent,
+shared edges, NaN rows; every page size; several curve orders) against
+  (a) Model/Rtree.v evaluated by the Coq kernel on the same rows, the same
+      page_size and the same queries (coordinates scaled by 2) with the IDENTITY
+      permutation as keys -- theorem C03_independent: the index sets and
+      total_bounds do not depend on the permutation -- compared as sets;
+  (b) a brute-force oracle of the specification.
+No private attribute of the index is needed for it, so a refactor of the index
+that keeps the public answers keeps the check green.
+
+OPTIONAL extras (internals; skipped and counted `internal-unavailable:<what>`
+when the attribute is missing or shaped differently; a disagreement is counted
+`internal-differs-public-agrees`, never reported as a violation): `_bounds_tree`
+against the model run on the exported `_keys`; `_start_index/_stop_index/
+_leaf_start` of every node for every (n, page_size), n <= 200; tree lengths.
 """
 import itertools
 import math
@@ -24,20 +32,26 @@ TRUSTED = ['numpy basic slicing (clipping at the length), boolean-mask indexing 
            'as transcribed in Model/Rtree.v',
            'int(np.ceil(np.log2(k))) modelled as Nat.log2_up (validated each run for k <= 2^16 '
            'under numba, not proved)',
-           'keys = argsort(hilbert distances) is an input of the model (the exported _keys array); '
-           'the theorems hold for every permutation',
+           'the model is run with keys = identity; by theorem C03_independent the answers are the '
+           'same sets for every permutation (hence for the Hilbert order the real index uses)',
            'float64 comparisons of the exactly representable grid values = integer comparisons']
 
 IMPORTS = 'Model.Num Model.Rtree Model.RtreeCheck'
-CASE_TY = 'nat * list (list (option Z)) * list nat * nat * list (list Z)'
 # readable form (replay / diagnosis): sorted index lists
-RES_TY = 'list (list (option Z)) * list (option Z) * list (list nat * list nat * list nat)'
+CASE_TY = 'nat * list (list (option Z)) * list nat * nat * list (list Z)'
 FN = 'rtree_case'
-# compact form (bulk): per query one integer packing the three index sets
-PRES_TY = 'list (list (option Z)) * list (option Z) * list Z'
-PFN = 'rtree_case_packed'
-CASE1_TY = 'list (list (option Z)) * list nat * nat'
-P1FN = 'rtree_case_1d'
+# public comparison: (total_bounds, one packed integer per query)
+PUB_TY = 'nat * list (list (option Z)) * nat * list (list Z)'
+PUB_RES = 'list (option Z) * list Z'
+PUB_FN = 'rtree_case_public'
+PUB1_TY = 'list (list (option Z)) * nat'
+PUB1_FN = 'rtree_case_public_1d'
+# optional internals
+TREE_TY = 'nat * list (list (option Z)) * list nat * nat'
+TREE_RES = 'list (list (option Z))'
+TREE_FN = 'tree_case'
+FULL_RES = 'list (list (option Z)) * list (option Z) * list Z'
+FULL_FN = 'rtree_case_packed'
 
 
 def N(x):
@@ -80,6 +94,31 @@ def _raw_queries(qs):
 Q1D = U.all_queries_1d()
 
 
+def export_internals(t, n, d):
+    """(keys, tree, missing): the private arrays of a real index when they exist with the
+    expected shape (None otherwise) and the names of those that do not"""
+    missing = []
+    keys = tree = None
+    try:
+        k = np.asarray(getattr(t, '_keys'))
+        if k.ndim == 1 and k.shape[0] == n and np.issubdtype(k.dtype, np.integer) \
+                and sorted(int(x) for x in k) == list(range(n)):
+            keys = [int(x) for x in k]
+        else:
+            missing.append('_keys')
+    except Exception:
+        missing.append('_keys')
+    try:
+        bt = np.asarray(getattr(t, '_bounds_tree'), dtype='float64')
+        if bt.ndim == 2 and (bt.shape[0] == 0 or bt.shape[1] == 2 * d):
+            tree = [list(map(float, r)) for r in bt]
+        else:
+            missing.append('_bounds_tree')
+    except Exception:
+        missing.append('_bounds_tree')
+    return keys, tree, missing
+
+
 class Build:
     """one real index build + a batch of queries, in the model's vocabulary"""
 
@@ -87,8 +126,9 @@ class Build:
         self.d, self.rows, self.page_size, self.p, self.queries, self.tag = \
             d, rows, page_size, p, queries, tag
         self.error = None
-        self.case = self.result = None
         self.impl = []
+        self.keys = self.tree = None
+        self.missing = []
 
     def meta(self):
         return {'d': self.d, 'rows': self.rows, 'page_size': self.page_size, 'p': self.p,
@@ -100,8 +140,6 @@ class Build:
         arr = np.array(rows, dtype='float64').reshape(len(rows), 2 * d)
         try:
             t = HilbertRtree(arr, p=self.p, page_size=self.page_size)
-            keys = [int(k) for k in t._keys]
-            tree = [list(map(float, r)) for r in np.asarray(t._bounds_tree)]
             tb = [float(x) for x in t.total_bounds]
             per = []
             for q in self.queries:
@@ -112,28 +150,39 @@ class Build:
             self.error = (type(e).__name__, str(e)[:300])
             return self
         self.tree_obj = t
-        self.keys, self.tree, self.tb, self.impl = keys, tree, tb, per
+        self.tb, self.impl = tb, per
         self.dup = next((j for j, tr in enumerate(per) if any(len(set(x)) != len(x) for x in tr)), None)
+        self.keys, self.tree, self.missing = export_internals(t, len(rows), d)
         return self
 
-    # -- the case in the model's vocabulary
+    def _packed(self):
+        s = 1 << len(self.rows)
+        pk = [_mask(a) + s * (_mask(b) + s * _mask(c)) for a, b, c in self.impl]
+        return C.Raw('[' + '; '.join(map(str, pk)) + ']%Z')
+
+    # -- public comparison (keys = identity inside the model)
+    def case_public(self):
+        return (N(self.d), _raw_rows(self.rows), N(max(0, self.page_size)), _raw_queries(self.queries))
+
+    def case_public_1d(self):
+        return (_raw_rows(self.rows), N(max(0, self.page_size)))
+
+    def result_public(self):
+        return (_raw_row(self.tb), self._packed())
+
+    # -- optional internals
+    def case_tree(self):
+        return (N(self.d), _raw_rows(self.rows), _raw_nats(self.keys), N(max(0, self.page_size)))
+
+    def result_tree(self):
+        return _raw_rows(self.tree)
+
     def case_full(self):
         return (N(self.d), _raw_rows(self.rows), _raw_nats(self.keys), N(max(0, self.page_size)),
                 _raw_queries(self.queries))
 
-    def case_1d(self):
-        return (_raw_rows(self.rows), _raw_nats(self.keys), N(max(0, self.page_size)))
-
-    def result_packed(self):
-        n = len(self.rows)
-        s = 1 << n
-        pk = [_mask(a) + s * (_mask(b) + s * _mask(c)) for a, b, c in self.impl]
-        return (_raw_rows(self.tree), _raw_row(self.tb), C.Raw('[' + '; '.join(map(str, pk)) + ']%Z'))
-
     def result_full(self):
-        return ([_frow(r) for r in self.tree], _frow(self.tb),
-                [([N(x) for x in sorted(a)], [N(x) for x in sorted(b)], [N(x) for x in sorted(c)])
-                 for a, b, c in self.impl])
+        return (_raw_rows(self.tree), _raw_row(self.tb), self._packed())
 
 
 def _same_floats(a, b):
@@ -145,10 +194,6 @@ def check_oracle(rep, b):
     for the whole batch of queries at once)"""
     d, rows = b.d, b.rows
     n = len(rows)
-    if sorted(b.keys) != list(range(n)):
-        rep.violation('keys-not-permutation', '_keys is not a permutation of the row numbers',
-                      {**b.meta(), 'keys': b.keys})
-        return False
     ok = True
     if not _same_floats(b.tb, U.brute_total(rows, d)):
         rep.violation('oracle:total_bounds', 'total_bounds is not the union of the finite boxes',
